@@ -279,3 +279,53 @@ func verifC09Rank(rx, ry, rz int) {}
 //@     invariant 0 <= idx() <= len(m.m)
 //@     invariant forall i int :: 0 <= i < m.n && i < 32*idx() ==> !bit(m.m, i)
 //@     decreases len(m.m) - idx()
+
+// ---------------------------------------------------------------------------
+// Filter functions (C06)
+
+// den(f, res, i): the meaning of filter function f for measurement i of res.
+//@ ghost func den(f filterFn, res *benchfmt.Result, i int) bool
+
+// What every filter function returns: either a verdict for the whole result
+// (nil mask) or a fresh mask with one bit per measurement, agreeing with den.
+//@ pure func maskFor(m mask, res *benchfmt.Result) bool = m == nil || (len(m) == (len(res.Values)+31)/32 && len(res.Values) > 0)
+//@ pure func denOf(m mask, x bool, i int) bool = m == nil ? x : bit(m, i)
+
+//@ functype filterFn(res *benchfmt.Result) (m mask, x bool)
+//@   opt allocates
+//@   requires res != nil
+//@   ensures maskFor(m, res) && (m == nil || fresh(m))
+//@   ensures forall i int :: 0 <= i < len(res.Values) ==> (denOf(m, x, i) <==> den(self, res, i))
+
+// Conjunction / disjunction of the operands' meanings from operand k on.
+//@ rec func andFrom(subs []filterFn, res *benchfmt.Result, i int, k int) bool = (k < 0 || k >= len(subs)) ? true : (den(subs[k], res, i) && andFrom(subs, res, i, k+1))
+//@ rec func orFrom(subs []filterFn, res *benchfmt.Result, i int, k int) bool = (k < 0 || k >= len(subs)) ? false : (den(subs[k], res, i) || orFrom(subs, res, i, k+1))
+
+// NOT
+//@ func filterOp$1(res *benchfmt.Result) (m mask, x bool)
+//@   props C06
+//@   requires res != nil && len(res.Values) <= 281474976710656
+//@   ensures maskFor(m, res) && (m == nil || fresh(m))
+//@   ensures forall i int :: 0 <= i < len(res.Values) ==> (denOf(m, x, i) <==> !den(sub, res, i))
+
+// AND
+//@ func filterOp$2(res *benchfmt.Result) (m mask, x bool)
+//@   props C06
+//@   requires res != nil
+//@   ensures maskFor(m, res) && (m == nil || fresh(m))
+//@   ensures forall i int :: 0 <= i < len(res.Values) ==> (denOf(m, x, i) <==> andFrom(subs, res, i, 0))
+//@   loop 1:
+//@     invariant 0 <= idx() <= len(subs) && unchanged() && maskFor(m, res) && (m == nil || (fresh(m) && ref(m) <= alloc))
+//@     invariant forall i int :: 0 <= i < len(res.Values) ==> (andFrom(subs, res, i, 0) <==> (denOf(m, true, i) && andFrom(subs, res, i, idx())))
+//@     decreases len(subs) - idx()
+
+// OR
+//@ func filterOp$3(res *benchfmt.Result) (m mask, x bool)
+//@   props C06
+//@   requires res != nil
+//@   ensures maskFor(m, res) && (m == nil || fresh(m))
+//@   ensures forall i int :: 0 <= i < len(res.Values) ==> (denOf(m, x, i) <==> orFrom(subs, res, i, 0))
+//@   loop 1:
+//@     invariant 0 <= idx() <= len(subs) && unchanged() && maskFor(m, res) && (m == nil || (fresh(m) && ref(m) <= alloc))
+//@     invariant forall i int :: 0 <= i < len(res.Values) ==> (orFrom(subs, res, i, 0) <==> (denOf(m, false, i) || orFrom(subs, res, i, idx())))
+//@     decreases len(subs) - idx()
